@@ -34,7 +34,7 @@ def main():
             shutil.copytree(os.path.join(src, demo_src), os.path.join(dst, demo_src), dirs_exist_ok=True)
     meta = {
         "property": prop,
-        "source": "fresh sub-agent (round 3) given only the property text, a scratch worktree and a one-line steer away from the earlier ideas",
+        "source": os.environ.get("SEED_SOURCE", "fresh sub-agent given only the property text and a scratch worktree"),
         "demo_src": demo_src, "demo_dst": demo_dst, "demo_cmd": demo_cmd,
         "needs_to_manifest": needs,
     }
